@@ -188,7 +188,24 @@ pub fn gen_driver(p: &Program, text: &str, stem: &str) -> Result<String, String>
     let topo_call = match text.find("eqlog_runtime::morphism_toposort(") {
         Some(i) => {
             let rest = &text[i..];
-            let end = rest.find(")\n.expect(").ok_or("cannot find the end of the morphism_toposort call")?;
+            // the call ends at the parenthesis that matches the one opening its argument list
+            let open = rest.find('(').ok_or("cannot find the argument list of the morphism_toposort call")?;
+            let mut depth = 0usize;
+            let mut end = None;
+            for (k, ch) in rest.char_indices().skip(open) {
+                match ch {
+                    '(' => depth += 1,
+                    ')' => {
+                        depth -= 1;
+                        if depth == 0 {
+                            end = Some(k);
+                            break;
+                        }
+                    }
+                    _ => {}
+                }
+            }
+            let end = end.ok_or("cannot find the end of the morphism_toposort call")?;
             Some(rest[..end + 1].to_string())
         }
         None => None,
